@@ -118,7 +118,35 @@ func c09WorkerLoop(c *Ctx, r *Result) {
 	getCall, _ := recv.(*ssa.Call)
 	ok := false
 	why := ""
-	if getCall == nil {
+	if phi, isPhi := recv.(*ssa.Phi); isPhi && getCall == nil && isLoopHeaderPhi(phi) {
+		// `for task := get(); task != nil; task = get()`: every value entering the loop variable is
+		// the result of a call of the same dequeue function, and Run cannot run again without
+		// passing the call on the back edge
+		var callee *ssa.Function
+		all := true
+		var backBlocks []*ssa.BasicBlock
+		for i, e := range phi.Edges {
+			call, isCall := stripConv(e).(*ssa.Call)
+			if !isCall || call.Call.StaticCallee() == nil || (callee != nil && call.Call.StaticCallee() != callee) {
+				all = false
+				break
+			}
+			callee = call.Call.StaticCallee()
+			if phi.Block().Dominates(phi.Block().Preds[i]) {
+				backBlocks = append(backBlocks, call.Block())
+			}
+		}
+		switch {
+		case !all || callee == nil:
+			why = "receiver of Task.Run is not the result of a dequeue call on every way into the loop (" + accessPath(recv) + ")"
+		case len(backBlocks) != 1:
+			why = "the worker loop has no single dequeue on its back edge"
+		case reachesWithout(run, run, backBlocks[0]):
+			why = "Run can execute again without a new dequeue"
+		default:
+			ok = true
+		}
+	} else if getCall == nil {
 		why = "receiver of Task.Run is not the direct result of a dequeue call (" + accessPath(recv) + ")"
 	} else {
 		sccRun := sccOf(run.Block())
